@@ -32,6 +32,7 @@ type Program struct {
 	AllFns map[*ssa.Function]bool
 
 	modFns    []*ssa.Function // every function (incl. closures) declared in the module
+	alias     map[*ssa.Function]string // renamed function → the key it had on the confirmed tree
 	reachable map[*ssa.Function]bool
 	roots     []*ssa.Function
 }
@@ -110,8 +111,13 @@ func Load(repo, goos, goarch string) (*Program, error) {
 	}
 	sort.Slice(p.modFns, func(i, j int) bool { return p.FnKey(p.modFns[i]) < p.FnKey(p.modFns[j]) })
 	p.computeRoots()
+	p.detectRenames()
 	inlinable = func(fn *ssa.Function) bool {
-		return fn.Parent() == nil && fn.Synthetic == "" && p.InModule(fn) && !knownFuncs[p.FnKey(fn)]
+		if fn.Parent() != nil || fn.Synthetic != "" || !p.InModule(fn) {
+			return false
+		}
+		_, known := knownFuncs[p.FnKey(fn)]
+		return !known
 	}
 	return p, nil
 }
@@ -152,12 +158,91 @@ func (p *Program) PkgShort(fn *ssa.Function) string {
 	return ""
 }
 
-// FnKey is a position-independent name: pkg.(*T).M, pkg.F, pkg.F$1 ...
+// FnKey is a position-independent name: pkg.(*T).M, pkg.F, pkg.F$1 ... A function that was merely renamed since the
+// rules were confirmed (detectRenames) keeps its old key, and so do its closures.
 func (p *Program) FnKey(fn *ssa.Function) string {
+	s := rawKey(fn)
+	if len(p.alias) > 0 {
+		top := fn
+		for top.Parent() != nil {
+			top = top.Parent()
+		}
+		if old, ok := p.alias[top]; ok {
+			return old + strings.TrimPrefix(s, rawKey(top))
+		}
+	}
+	return s
+}
+
+func rawKey(fn *ssa.Function) string {
 	s := fn.String()
 	s = strings.ReplaceAll(s, ModPath+"/", "")
 	s = strings.ReplaceAll(s, ModPath, "sqlittle")
 	return s
+}
+
+// SigString renders fn's signature without the receiver and without parameter names.
+func SigString(fn *ssa.Function) string {
+	sig := fn.Signature
+	var ps, rs []string
+	for i := 0; i < sig.Params().Len(); i++ {
+		ps = append(ps, types.TypeString(sig.Params().At(i).Type(), nil))
+	}
+	for i := 0; i < sig.Results().Len(); i++ {
+		rs = append(rs, types.TypeString(sig.Results().At(i).Type(), nil))
+	}
+	v := ""
+	if sig.Variadic() {
+		v = "..."
+	}
+	return "(" + strings.Join(ps, ", ") + v + ") (" + strings.Join(rs, ", ") + ")"
+}
+
+// keyScope: the part of a key that a rename does not change: package and receiver ("(*db.Database)." or "db.").
+func keyScope(key string) string {
+	if strings.HasPrefix(key, "(") {
+		if i := strings.Index(key, ")."); i >= 0 {
+			return key[:i+2]
+		}
+	}
+	if i := strings.LastIndex(key, "."); i >= 0 {
+		return key[:i+1]
+	}
+	return ""
+}
+
+// detectRenames pairs functions of the confirmed tree that are gone with new functions of the same package, receiver
+// and signature, when that pairing is unique: such a function was renamed, not removed, and keeps its old key.
+func (p *Program) detectRenames() {
+	p.alias = map[*ssa.Function]string{}
+	current := map[string]bool{}
+	var added []*ssa.Function
+	for _, fn := range p.modFns {
+		k := rawKey(fn)
+		current[k] = true
+		if _, known := knownFuncs[k]; !known && fn.Parent() == nil && fn.Synthetic == "" {
+			added = append(added, fn)
+		}
+	}
+	type slot struct{ scope, sig string }
+	gone := map[slot][]string{}
+	for k, sig := range knownFuncs {
+		if strings.Contains(k, "$") || current[k] {
+			continue
+		}
+		// functions of the other build variant (pager_windows etc.) are not `gone`
+		gone[slot{keyScope(k), sig}] = append(gone[slot{keyScope(k), sig}], k)
+	}
+	fresh := map[slot][]*ssa.Function{}
+	for _, fn := range added {
+		s := slot{keyScope(rawKey(fn)), SigString(fn)}
+		fresh[s] = append(fresh[s], fn)
+	}
+	for s, olds := range gone {
+		if news := fresh[s]; len(olds) == 1 && len(news) == 1 {
+			p.alias[news[0]] = olds[0]
+		}
+	}
 }
 
 // ModFuncs lists every module function (closures included), sorted by key.
@@ -166,6 +251,31 @@ func (p *Program) ModFuncs() []*ssa.Function { return p.modFns }
 // Func resolves a module function by package short name and name, e.g. ("db", "(*Database).resolveDirty"),
 // ("db", "parseHeader"). Returns nil when absent.
 func (p *Program) Func(pkg, name string) *ssa.Function {
+	if fn := p.funcByName(pkg, name); fn != nil {
+		return fn
+	}
+	// a renamed function is found under the key it had on the confirmed tree
+	if len(p.alias) > 0 {
+		pk := pkg
+		if pk == "." {
+			pk = "sqlittle"
+		}
+		key := pk + "." + name
+		if strings.HasPrefix(name, "(*") {
+			key = "(*" + pk + "." + name[2:]
+		} else if strings.HasPrefix(name, "(") {
+			key = "(" + pk + "." + name[1:]
+		}
+		for fn, old := range p.alias {
+			if old == key {
+				return fn
+			}
+		}
+	}
+	return nil
+}
+
+func (p *Program) funcByName(pkg, name string) *ssa.Function {
 	sp := p.SPkg[pkg]
 	if sp == nil {
 		return nil
